@@ -38,6 +38,7 @@ typedef struct _tokens
   int pushback2_type;
   int unget_ptr;
   int unget_stack_ptr;
+  int expand_depth;   // nested tokens_get() calls that follow an expansion
   int unget_stack[MAX_NESTED_MACROS + 1];
   char unget[512];
   char pushback[TOKENLEN];
